@@ -7,7 +7,7 @@ import mpmath
 from mpmath import mpf
 
 from common import f, fr, finite, main
-from logref import R, antiderivative_coeffs, fmp, magnitude_coeffs
+from logref import R, antiderivative_coeffs, fmp, magnitude_coeffs, quartic_mags
 
 u = mpf(2) ** -53
 E12 = mpf(10) ** -12
@@ -68,6 +68,7 @@ class Piece:
             self.M = magnitude_coeffs(self.P)
             self.Qm = [fmp(q) for q in self.Q]
             self.Mm = [fmp(q) for q in self.M]
+            self.Mq = [fmp(q) for q in quartic_mags(self.P)] if self.quartic else None
         self.absF = [abs(c) for c in self.F]
         self._tol = {}
 
@@ -116,11 +117,13 @@ class Piece:
             return s
         L = self.L(t)
         aL = abs(L)
+        # magnitudes of the construction (absolute-value recurrences on the integrand's coefficients), not of the returned
+        # numbers: the recurrence q_i = p_i - (i+1) q_(i+1) may cancel, and its rounding error scales with the former
         if self.quartic:
-            k, c1, c2, c3, c4, uu = self.F
-            return abs(k) + t * (abs(c1) * aL + abs(c2) * aL ** 2 + abs(c3) * aL ** 3 + abs(c4) * aL ** 4 + abs(uu) * abs(ctail(float(t))))
+            m1, m2, m3, m4, mu = self.Mq
+            return self.absF[0] + t * (m1 * aL + m2 * aL ** 2 + m3 * aL ** 3 + m4 * aL ** 4 + mu * abs(ctail(float(t))))
         s = mpf(0)
-        for c in reversed(self.absF[1:]):
+        for c in reversed(self.Mm):
             s = s * aL + c
         return self.absF[0] + t * s
 
@@ -141,11 +144,11 @@ class Piece:
             ulp = mpf(math.ulp(float(L))) if L != 0 else mpf(0)
             aL = abs(L)
             if self.quartic:
-                k, c1, c2, c3, c4, uu = self.F
-                d = abs(c1) + 2 * abs(c2) * aL + 3 * abs(c3) * aL ** 2 + 4 * abs(c4) * aL ** 3 + abs(uu) * (abs(ctail(float(t))) + aL ** 4 / 24)
+                m1, m2, m3, m4, mu = self.Mq
+                d = m1 + 2 * m2 * aL + 3 * m3 * aL ** 2 + 4 * m4 * aL ** 3 + mu * (abs(ctail(float(t))) + aL ** 4 / 24)
                 tol += E12 * a
             else:
-                d = sum(j * abs(q) * aL ** (j - 1) for j, q in enumerate(self.F[1:]) if j > 0)
+                d = sum(j * q * aL ** (j - 1) for j, q in enumerate(self.Mm) if j > 0)
             tol += mpf(t) * d * ulp
         return tol
 
